@@ -529,6 +529,12 @@ func c02Index(c *Ctx, p *Prog, fn *ssa.Function, parsers []*parserInfo) {
 		}
 		k, isConst := constInt(idx)
 		if !isConst {
+			// base + k with the length of the same slice known to exceed it: `len(x) > base + m` with
+			// m >= k (or `>= base + m` with m > k), the base being a length or otherwise non-negative
+			if why, ok := symbolicIndexBound(in, x, idx); ok {
+				c.OK("C02-R7", key, p.pos(in.Pos()), why)
+				return
+			}
 			c.Fail("C02-R7", key, p.pos(in.Pos()), "variable index without a recognised bound")
 			return
 		}
@@ -561,6 +567,38 @@ func c02Index(c *Ctx, p *Prog, fn *ssa.Function, parsers []*parserInfo) {
 				if v > k {
 					okG, why = true, "len == "+a.R
 				}
+			}
+		}
+		// several tests together: the smallest length that passes all of them (len != 0, len != 1 → at least 2)
+		if !okG {
+			least := int64(0)
+			excluded := map[int64]bool{}
+			for _, a := range g {
+				if a.L != ln {
+					continue
+				}
+				var v int64
+				if _, err := fmt.Sscanf(a.R, "%d", &v); err != nil {
+					continue
+				}
+				switch a.Op {
+				case "!=":
+					excluded[v] = true
+				case ">":
+					if v+1 > least {
+						least = v + 1
+					}
+				case ">=":
+					if v > least {
+						least = v
+					}
+				}
+			}
+			for excluded[least] {
+				least++
+			}
+			if least > k {
+				okG, why = true, fmt.Sprintf("the tests on the length leave %d as the smallest possible", least)
 			}
 		}
 		// HasPrefix(x, e) == true with len(e) == m > k
@@ -758,4 +796,80 @@ func helperHasEffect(h *ssa.Function, depth int) bool {
 		}
 	})
 	return found
+}
+
+// linBase splits v into base + constant (base nil for a plain constant).
+func linBase(v ssa.Value) (ssa.Value, int64) {
+	v = stripConv(v)
+	if k, ok := constInt(v); ok {
+		return nil, k
+	}
+	if bo, ok := v.(*ssa.BinOp); ok && (bo.Op == token.ADD || bo.Op == token.SUB) {
+		if k, isK := constInt(bo.Y); isK {
+			b, off := linBase(bo.X)
+			if bo.Op == token.SUB {
+				k = -k
+			}
+			return b, off + k
+		}
+		if k, isK := constInt(bo.X); isK && bo.Op == token.ADD {
+			b, off := linBase(bo.Y)
+			return b, off + k
+		}
+	}
+	return v, 0
+}
+
+// symbolicIndexBound: x[idx] with idx = base + k is in bounds because a dominating test compares
+// len(x) with base + m for a suitable m, and base + k cannot be negative.
+func symbolicIndexBound(at ssa.Instruction, x, idx ssa.Value) (string, bool) {
+	base, k := linBase(idx)
+	if base == nil {
+		return "", false
+	}
+	nonNeg := k >= 0
+	if nonNeg {
+		if call, ok := base.(*ssa.Call); ok {
+			if bi, isB := call.Call.Value.(*ssa.Builtin); !isB || bi.Name() != "len" {
+				nonNeg = false
+			}
+		} else if okN, _ := nonNegative(base, at, 0); !okN {
+			nonNeg = false
+		}
+	}
+	if !nonNeg {
+		return "", false
+	}
+	isLenX := func(v ssa.Value) bool {
+		call, ok := stripConv(v).(*ssa.Call)
+		if !ok {
+			return false
+		}
+		bi, isB := call.Call.Value.(*ssa.Builtin)
+		return isB && bi.Name() == "len" && (call.Call.Args[0] == x || sameValue(call.Call.Args[0], x))
+	}
+	for _, g := range rawGuardsAt(at.Block()) {
+		bo, ok := g.Cond.(*ssa.BinOp)
+		if !ok {
+			continue
+		}
+		l, r, op := bo.X, bo.Y, bo.Op
+		if !isLenX(l) && isLenX(r) {
+			l, r, op = r, l, swapTok(op)
+		}
+		if !isLenX(l) {
+			continue
+		}
+		if !g.Positive {
+			op = negTok(op)
+		}
+		gb, m := linBase(r)
+		if gb == nil || !(gb == base || sameValue(gb, base)) {
+			continue
+		}
+		if (op == token.GTR && m >= k) || (op == token.GEQ && m > k) {
+			return fmt.Sprintf("index %s%+d under len %s %s%+d", valName(base), k, op, valName(base), m), true
+		}
+	}
+	return "", false
 }
